@@ -107,9 +107,22 @@ def check_C01(tier, seed, replay=None):
     options = [opt(), opt(maxexpr=3000), opt(entry="-"), opt(debug=True), opt(via="reader"), opt(via="file"), opt(entry="No_such_rule")]
     allin = list(range(len(inputs)))
     run.keep_debug = True
+    # terminals and input of several bytes per rune (a rune is one step whatever its length), ignore-case beyond the letters
+    ARROW = 0x2192
+    u8leaves = F.LEAVES_UTF8 + F.LEAVES_FOLD + [("lit", (ARROW,), False), ("lit", (ARROW, F.A), False), ("lit", (F.EACUTE, F.A), False), ("cls", (ARROW,), (), True, False)]
+    u8 = F.groups_from_trees(F.exhaustive(1, u8leaves[:12] + u8leaves[-4:]), gi0=len(groups) + 1)
+    u8 += F.random_groups(seed + 9, nrand // 4, F.RandCfg(depth=3, maxrules=2, leaves=u8leaves, safe_rep=False), gi0=len(groups) + len(u8) + 1)
+    for g in u8:
+        g.tags.add("u8")
+    groups += u8
+    u8first = len(inputs)
+    inputs += F.all_inputs([F.utf8(ARROW), F.utf8(F.EACUTE), [F.A], F.utf8(F.RN), F.utf8(F.RNL), F.utf8(F.EURO), [F.NL]], 3)
+    u8in = list(range(u8first, len(inputs)))
 
     def plan_for(g):
         oi = 1 if g.maydiverge else 0
+        if "u8" in g.tags:
+            return [(ii, oi) for ii in u8in]
         pl = [(ii, oi) for ii in allin]
         if not g.maydiverge and g.gi % 4 == 0:
             pl += [(ii, 3) for ii in allin[::3]]          # Debug(true) runs: the T2 traces
@@ -118,15 +131,16 @@ def check_C01(tier, seed, replay=None):
         if g.gi % 7 == 2:
             pl += [(ii, 6) for ii in allin[:3]]                                          # an Entrypoint that does not exist
         return pl
-    div, tot = run.execute(groups, inputs, options, plan_for, flagsets, pack_size=100, noentry_oi=2)
-    design_level(run, groups, inputs, options, lambda g: [1] if g.maydiverge else [0], 192 if tier == "quick" else 100000)
+    div, tot = run.execute(groups, inputs, options, plan_for, flagsets, pack_size=100, noentry_oi=2, lower=F.FOLD_PAIRS)
+    design_level(run, groups, inputs, options, lambda g: [1] if g.maydiverge else [0], 192 if tier == "quick" else 100000, inputs_idx=allin,
+                 subset=[g for g in groups if "u8" not in g.tags])
     t2_bind(run, 1500 if tier == "quick" else 20000)
     # "for every generation-flag set": the same grammars through -optimize-grammar (values compared after normalisation)
     run_o = Run("C01", tier, seed)
     sub = [g for g in groups if g.gi > len(trees)][: 300 if tier == "quick" else 2000]
     sub2 = F.random_groups(seed, len(sub), cfg, gi0=1)
     sub2 += c09_idiom_groups(seed + 21, 150 if tier == "quick" else 1000, len(sub2) + 1)      # leaf rules used several times by one rule
-    inputs = inputs + [[random.Random(seed + k_).choice([F.A, F.B, 99, 100, 101, 102, F.UA, 66, 95, 36, 48, 49]) for _ in range(1 + k_ % 4)] for k_ in range(120)]
+    inputs = inputs[:u8first] + [[random.Random(seed + k_).choice([F.A, F.B, 99, 100, 101, 102, F.UA, 66, 95, 36, 48, 49]) for _ in range(1 + k_ % 4)] for k_ in range(120)]
     allin = list(range(len(inputs)))
     d_o, tot_o = run_o.execute(sub2, inputs, options, lambda g: [(ii, 1 if g.maydiverge else 0) for ii in allin], [["-optimize-grammar"], ["-optimize-grammar", "-optimize-parser"]],
                                cmp=dict(norm=True, errs=False), gen_flags_for=lambda pk: ["-alternate-entrypoints", ",".join(g.sname() for g in pk)])
@@ -180,6 +194,17 @@ def check_C02(tier, seed, replay=None):
     div, tot = run.execute(groups, inputs, options, plan_for, flagsets, lower=[[201, 233]], cmp=dict(ctx=True))
     design_level(run, groups, inputs, options, lambda g: [0], 250 if tier == "quick" else 3000, inputs_idx=range(nin))
     t2_bind(run, 2000 if tier == "quick" else 20000)
+    # the blocks of a grammar that went through -optimize-grammar run exactly when, and see exactly what, those of the original do
+    # (leaf rules with actions inlined under predicates, repetitions, labels; values compared after normalisation)
+    run_o = Run("C02", tier, seed)
+    og = c09_groups(seed + 31, 150 if tier == "quick" else 800)
+    og += c09_idiom_groups(seed + 32, 60 if tier == "quick" else 400, len(og) + 1)
+    oin = F.all_inputs([F.A, F.B, F.UA, 99], 3)
+    d_o, tot_o = run_o.execute(og, oin, [opt(), opt(maxexpr=3000)], lambda g: [(ii, 1 if g.maydiverge else 0) for ii in range(len(oin))],
+                               [["-optimize-grammar"]], cmp=dict(norm=True, errs=False), gen_flags_for=lambda pk: ["-alternate-entrypoints", ",".join(g.sname() for g in pk)])
+    for d in d_o:
+        run.violation(run_o.replay_path(d), "-optimize-grammar: df=%s gi=%d ii=%d" % (d["df"], d["gi"], d["ii"]))
+    tot = dict(n=tot["n"] + tot_o["n"], states=tot["states"] + tot_o["states"], transitions=tot["transitions"] + tot_o["transitions"])
     return std_finish(run, div, tot, "block placements over E(1) with multi-byte and newline terminals + random multi-rule grammars with actions, predicates, state blocks and labels x all inputs over {a,\\n,e-acute,euro} up to the bound x {default, Memoize}; every code-block event is compared")
 
 
@@ -347,9 +372,23 @@ def check_C10(tier, seed, replay=None):
     options = [opt(), opt(maxexpr=3000)]
     nin = len(inputs)
     lrin = add_lr(groups, inputs, 100 if tier == "quick" else 600, seed)   # left-recursion handling when that is enabled
+    # case folding beyond the letters: ignore-case terminals over cased runes that are not letters, or that fold into ASCII
+    fold = F.random_groups(seed + 6, n // 3, F.RandCfg(depth=3, maxrules=2, leaves=F.LEAVES_FOLD + [("lit", (F.A,), False), ("any",)]), len(groups) + 1)
+    for g in fold:
+        g.tags.add("fold")
+    groups += fold
+    fold_first = len(inputs)
+    inputs += F.all_inputs([F.utf8(F.RN), F.utf8(F.RNL), F.utf8(F.RN + 2), F.utf8(F.RNL + 2), [F.A], [107], [75], F.utf8(F.KELVIN), F.utf8(0xC9), F.utf8(0xE9)], 2)
+    foldin = list(range(fold_first, len(inputs)))
+    bp = budget_plan(nin, lr_inputs=lrin)
+
+    def plan10(g):
+        if "fold" in g.tags:
+            return [(ii, 1 if g.maydiverge else 0) for ii in foldin]
+        return bp(g)
     xs = [[], ["-optimize-basic-latin"], ["-nolint"], ["-optimize-basic-latin", "-nolint"]]
     flagsets = [f for x in xs for f in (x, x + ["-optimize-parser"])]
-    div, tot = run.execute(groups, inputs, options, budget_plan(nin, lr_inputs=lrin), flagsets, lower=[[201, 233]])
+    div, tot = run.execute(groups, inputs, options, plan10, flagsets, lower=F.FOLD_PAIRS)
     pairs = [(i, i + 1) for i in range(0, len(run.variants), 2)]
     d2, npairs = pairwise(run, pairs, fields=("status", "ok", "end", "val", "errs", "nomatch", "escaped"))
     div += [d for d in d2 if d["gi"] not in run.wit]
@@ -1664,6 +1703,26 @@ def c09_idiom_groups(seed, n, gi0):
             g.maydiverge = False
             out.append(g)
             continue
+        if rng.random() < 0.1:
+            # spelling idiom: single characters that the optimizer merges into a class whose regenerated text reads like a
+            # DIFFERENT class of the same grammar: "a" / "-" / "f" reads [a-f] (the range), "^" / "a" reads [^a] (the inverted class)
+            if rng.random() < 0.6:
+                lo, hi = sorted(rng.sample([F.A, F.B, 99, 100, 101, 102], 2))
+                merged = g.choice([g.lit([lo]), g.lit([45]), g.lit([hi])])
+                real = g.cls((), (lo, hi), False, False)
+            else:
+                x = rng.choice([F.A, F.B, 99])
+                merged = g.choice([g.lit([94]), g.lit([x])])
+                real = g.cls((x,), (), True, False)
+            two = [g.label(merged), g.un(rng.choice(["star", "plus", "opt"]), real)]
+            if rng.random() < 0.5:
+                two = [g.label(real), g.un(rng.choice(["star", "plus", "opt"]), merged)]
+            g.rules = [g.action(g.seq(two))]
+            g.disp = [""]
+            g.compute_args()
+            g.maydiverge = False
+            out.append(g)
+            continue
         nleaf = rng.randint(1, 2)
         nr = 2 + nleaf + rng.randint(0, 1)
         leaf_ix = list(range(nr - nleaf + 1, nr + 1))
@@ -1729,7 +1788,7 @@ def check_C09(tier, seed, replay=None):
     inputs = F.all_inputs([F.A, F.B, F.UA, 99], maxlen)
     rngi = random.Random(seed)
     for _ in range(150 if tier == "quick" else 600):       # the idiom family's alphabet
-        inputs.append([rngi.choice([F.A, F.B, 99, 100, 101, 102, F.UA, 66, 95, 36, 48, 49]) for _ in range(rngi.randint(1, 5))])
+        inputs.append([rngi.choice([F.A, F.B, 99, 100, 101, 102, F.UA, 66, 95, 36, 48, 49, 45, 94]) for _ in range(rngi.randint(1, 5))])
     nin = len(inputs)
     options = [opt(), opt(maxexpr=3000)]
     # every protected rule is exercised as an entrypoint: "@k" enters rule k directly
@@ -1757,7 +1816,12 @@ def check_C09(tier, seed, replay=None):
                     "-alternate-entrypoints", ",".join(names[2 * third:]) or names[0]]
         return ["-alternate-entrypoints", ",".join(names)]
     run.bisect_build_failures = True      # an optimised grammar whose generated code does not compile is a violation, not a machinery failure
-    div, tot = run.execute(groups, inputs, options, plan_for, [["-optimize-grammar"], ["-optimize-grammar", "-optimize-parser"], []],
+    # the optimised grammar goes through every other generation path too (the class tables of -optimize-basic-latin are built
+    # from the classes the optimizer synthesised)
+    fsets = [["-optimize-grammar"], ["-optimize-grammar", "-optimize-parser", "-optimize-basic-latin"], []]
+    if tier != "quick":
+        fsets += [["-optimize-grammar", "-optimize-basic-latin"], ["-optimize-grammar", "-optimize-parser"]]
+    div, tot = run.execute(groups, inputs, options, plan_for, fsets,
                            cmp=dict(norm=True, errs=False), gen_flags_for=gen_flags, pack_size=150)
     # real-vs-real: optimised against unoptimised (acceptance, consumed prefix, normalised value and events)
     byname = {}
